@@ -1,13 +1,9 @@
 import HpoModel.Drv.Core
+import HpoModel.Lookup
 /- Protocol handlers for ontology-level queries: lookups (C10), metamorphic equality, oracles. -/
 namespace Hpo
 namespace Drv
 open Proto
-
-/-- `str::contains`: the query occurs as a contiguous substring -/
-def isInfix (q : List Char) : List Char → Bool
-  | [] => q.isEmpty
-  | c :: cs => q.isPrefixOf (c :: cs) || isInfix q cs
 
 def withSlot (s : DState) (slot : String) (f : Onto → List String) : Option Out :=
   match slot.toNat?.bind s.slot with
@@ -45,14 +41,14 @@ def handleQuery (s : DState) (toks : List String) : Option Out :=
   | ["genebyname", slot, q] =>
     match parseName q with
     | some q => withSlot s slot fun o =>
-        match o.genes.find? (fun g => g.name = q) with
+        match o.geneByName q with
         | some g => ["some " ++ showName g.name]
         | none => ["none"]
     | none => none
   | ["omimsearch", slot, q] =>
     match parseName q with
     | some q => withSlot s slot fun o =>
-        let hits := o.omim.filter (fun d => isInfix q d.name)
+        let hits := o.omimByName q
         ["search " ++ showIds (sortNat (hits.map (·.id))) ++ " first=" ++ showBool (!hits.isEmpty)]
     | none => none
   | _ => none
